@@ -11,6 +11,7 @@ import (
 	cose "github.com/veraison/go-cose"
 	psatoken "github.com/veraison/psatoken"
 	"verif/engine/bfs"
+	"verif/engine/deephash"
 	"verif/engine/evid"
 	"verif/fixtures"
 	"verif/mcbor"
@@ -126,6 +127,17 @@ func newC19Fixtures() *c19Fixtures {
 	}
 	badPayload := mcbor.Encode(bad)
 	add("signed-by-k1-claims-map-with-wrong-type", envelope(vA.prot, nil, badPayload, rawSign(f.k1, "ES256", vA.prot, badPayload)), false)
+	// a genuinely signed profile-2 claims map whose nonce has 7 bytes: it can be decoded (the nonce type does not check
+	// its length while decoding) but the decoded claims-set cannot be encoded again
+	short := wireTree(f.absA, true)
+	for i, p := range short.Pairs {
+		if k, _ := p[0].Int(); k == 10 {
+			short.Pairs[i][1] = mcbor.B(pat(7, 0x5a))
+		}
+	}
+	shortPayload := mcbor.Encode(short)
+	_, serr := psatoken.DecodeClaimsFromCBOR(shortPayload)
+	add("signed-by-k1-claims-with-7-byte-nonce", envelope(vA.prot, nil, shortPayload, rawSign(f.k1, "ES256", vA.prot, shortPayload)), serr == nil)
 	nullPayload := []byte{0xf6}
 	add("signed-by-k1-null-payload", envelope(vA.prot, nil, nullPayload, rawSign(f.k1, "ES256", vA.prot, nullPayload)), false)
 	return f
@@ -153,7 +165,10 @@ func c19System() bfs.System {
 	}
 	ops = append(ops, opDef{"ev.Claims=C (out of band)", "oob", 0}, opDef{"ev.Claims.SetClientID(77) (in place)", "oob", 1}, opDef{"ev.Claims=invalid (out of band)", "oob", 2},
 		opDef{"ev.Claims.SetSoftwareComponents(empty) (in place, invalidates)", "oob", 3},
-		opDef{"Verify(k1)", "verify", 0}, opDef{"Verify(k2)", "verify", 1})
+		opDef{"Verify(k1)", "verify", 0}, opDef{"Verify(k2)", "verify", 1},
+		// an Evidence is a plain struct: operations on a by-value copy of it leave the original as it was
+		opDef{"cp := *ev; cp.UnmarshalCOSE(token(B,k2))", "copy", 0}, opDef{"cp := *ev; cp.UnmarshalCOSE(garbage)", "copy", 1},
+		opDef{"cp := *ev; cp.SetClaims(B); cp.Sign(good-k2)", "copy", 2}, opDef{"cp := *ev; cp.Sign(returns-error)", "copy", 3})
 	_ = nS
 	_ = nT
 	abs := []*refmodel.Claims{fx.absA, fx.absB, fx.absInvalid}
@@ -286,6 +301,29 @@ func c19System() bfs.System {
 					_ = ev.Claims.SetSoftwareComponents([]psatoken.ISwComponent{})
 				}
 				replaced = true
+			case "copy":
+				var before string
+				if last {
+					before = deephash.Take(ev, snapOpts).Canon
+				}
+				cp := *ev
+				switch op.idx {
+				case 0:
+					_ = cp.UnmarshalCOSE(append([]byte{}, fx.tokens[1].tok...))
+				case 1:
+					_ = cp.UnmarshalCOSE([]byte{0xd2, 0x84, 0x01, 0x02})
+				case 2:
+					x, _ := realise(fx.absB)
+					_ = cp.SetClaims(x)
+					_, _ = cp.Sign(fx.k2.Signer())
+				case 3:
+					if cp.Claims != nil {
+						_, _ = cp.Sign(fx.signers[2].signer())
+					}
+				}
+				if last && deephash.Take(ev, snapOpts).Canon != before {
+					fail("C19:operation-on-copy-changes-original", "%s changed the original Evidence", op.name)
+				}
 			case "verify":
 				// verification is an operation too (it must not change anything, nor be remembered)
 				_ = ev.Verify([]*fixtures.Key{fx.k1, fx.k2}[op.idx].Pub)
